@@ -340,7 +340,7 @@ def parse_vspec(path):
         if m:
             kw, arg = m.group(1), m.group(2).strip()
             if kw == 'fn':
-                cur = specs.setdefault(arg, dict(sig='', loops={}, before=[], after=[], top='', attr=''))
+                cur = specs.setdefault(arg, dict(sig='', loops={}, before=[], after=[], top='', attr='', tail=''))
                 sec = None
             elif kw == 'sig':
                 sec = ('sig',)
@@ -348,6 +348,8 @@ def parse_vspec(path):
                 sec = ('top',)
             elif kw == 'attr':
                 sec = ('attr',)
+            elif kw == 'tail':
+                sec = ('tail',)
             elif kw == 'loop':
                 sec = ('loop', int(arg))
                 cur['loops'][int(arg)] = ''
@@ -362,7 +364,9 @@ def parse_vspec(path):
             continue
         if cur is None or sec is None:
             continue
-        if sec[0] == 'attr':
+        if sec[0] == 'tail':
+            cur['tail'] += line + '\n'
+        elif sec[0] == 'attr':
             cur['attr'] += line + '\n'
         elif sec[0] == 'sig':
             cur['sig'] += line + '\n'
@@ -434,6 +438,9 @@ def splice(toks, body, spec):
         if pos is None:
             raise ExtractError('contract anchor lost: no statement starts with %r' % prefix)
         inserts.append((pos, _chunk(text)))
+    if spec.get('tail', '').strip():
+        # ghost text at the very end of the function body (before its closing brace)
+        inserts.append((len(out) - 1, _chunk(spec['tail'])))
     for prefix, text in spec.get('after', []):
         ptoks = [x[1] for x in lex(prefix)]
         pos = None
